@@ -11,7 +11,6 @@ import (
 
 	lime "github.com/takenet/lime-go"
 	"verifharness/coqfmt"
-	"verifharness/memconn"
 )
 
 type interopCase struct {
@@ -52,10 +51,7 @@ func (c *interopCase) coq() string {
 				for i, o := range spec.ops {
 					ops[i] = o.Coq()
 				}
-				kind := "(TTcp false)"
-				if c.Conf.Kind == "memtls" {
-					kind = "(TTcp true)"
-				}
+				kind := coqKind(c.Conf.Kind)
 				sconf = coqfmt.App("built_conf", coqfmt.List(ops), kind, coqfmt.Bool(true))
 				oracle = coqfmt.App("built_oracle", coqfmt.List(ops))
 			}
@@ -71,46 +67,15 @@ func (c *interopCase) coq() string {
 // runInterop plays one handshake between a real client channel and the scriptServer's real Server.
 func (s *scriptServer) runInterop(cconf *CConf, ident int) *interopCase {
 	c := &interopCase{Interop: true, Conf: s.conf, Oracle: s.oracle, CConf: cconf, Ident: ident}
-	var st, ct lime.Transport
-	var cleanup func()
-	switch s.conf.Kind {
-	case "inproc":
-		ctx, cancel := context.WithTimeout(context.Background(), 2*time.Second)
-		defer cancel()
-		inprocMu.Lock()
-		addr := nextInprocAddr()
-		inprocMu.Unlock()
-		l := lime.NewInProcessTransportListener(addr)
-		if err := l.Listen(ctx, addr); err != nil {
-			c.Out = "setup:" + err.Error()
-			return c
+	ct, st, pair, err := TransportPair(s.conf.Kind, 4)
+	if err != nil {
+		if pair != nil {
+			pair.Close()
 		}
-		var err error
-		ct, err = lime.DialInProcess(addr, 4)
-		if err != nil {
-			_ = l.Close()
-			c.Out = "setup:" + err.Error()
-			return c
-		}
-		st, err = l.Accept(ctx)
-		if err != nil {
-			_ = l.Close()
-			c.Out = "setup:" + err.Error()
-			return c
-		}
-		cleanup = func() { _ = l.Close() }
-	default:
-		cmem, smem := memconn.Pipe(0)
-		var scfg, ccfg *lime.TCPConfig
-		if s.conf.Kind == "memtls" {
-			sc, cc := testTLS()
-			scfg = &lime.TCPConfig{TLSConfig: sc}
-			ccfg = &lime.TCPConfig{TLSConfig: cc}
-		}
-		st = lime.NewTCPTransportOverConn(smem, true, scfg)
-		ct = lime.NewTCPTransportOverConn(cmem, false, ccfg)
-		cleanup = func() { _ = cmem.Close(); _ = smem.Close() }
+		c.Out = "setup:" + err.Error()
+		return c
 	}
+	cleanup := func() { pair.Close() }
 	s.mu.Lock()
 	s.calls = nil
 	s.round = map[string]int{}
@@ -212,6 +177,17 @@ func interopServerConfs() []*SConf {
 		ip.Kind = "inproc"
 		out = append(out, &ip)
 	}
+	// real sockets: WebSocket (never negotiates an encryption change) and TCP through the kernel
+	for _, name := range []string{"plain-only", "none-or-tls", "tls-only", "tls-first"} {
+		for _, kind := range []string{"ws", "wss", "tcptls"} {
+			for _, c := range confsByName(name) {
+				x := *c
+				x.Name = c.Name + "-" + kind
+				x.Kind = kind
+				out = append(out, &x)
+			}
+		}
+	}
 	return out
 }
 
@@ -273,4 +249,21 @@ var interopBuiltClients = [][]KOp{
 	{{Op: "enc", Arg: "none"}, {Op: "comp", Arg: "none"}, {Op: "guest"}},
 	{{Op: "comp", Arg: "gzip"}, {Op: "plain", N: 1}},
 	{{Op: "plain", N: 9}, {Op: "enc", Arg: "none"}, {Op: "key", N: 50}, {Op: "enc", Arg: "tls"}},
+}
+
+// coqKind: Hs/Types.v tkind of a harness transport kind
+func coqKind(kind string) string {
+	switch kind {
+	case "memtls", "tcptls":
+		return "(TTcp true)"
+	case "ws":
+		return "(TWs false)"
+	case "wss":
+		return "(TWs true)"
+	case "inproc":
+		return "TInproc"
+	case "multi":
+		return "TMulti"
+	}
+	return "(TTcp false)"
 }
